@@ -285,7 +285,7 @@ func c25Gen(rt *rapid.T) *hist.Case {
 	return c
 }
 
-// c25Aged: three fixed histories in which REAL time passes (4 s) between the publication of a retained message and its
+// c25Aged: three fixed histories in which REAL time passes (6 s) between the publication of a retained message and its
 // replay to a subscriber whose window is full, so that "publish time" and "time it was held back" differ; they run
 // concurrently once per run (a generated case never sleeps).
 func c25Aged() []*hist.Case {
@@ -294,7 +294,7 @@ func c25Aged() []*hist.Case {
 		x      int64
 		off    int64
 		retQoS byte
-	}{{5, 5, 1}, {5, 30, 1}, {60, 20, 2}} {
+	}{{5, 3, 1}, {5, 30, 1}, {60, 20, 2}} { // first: tick at publish time + 9 s = 1 s past expiry + margin, but only 3 s after the replay
 		c := &hist.Case{}
 		c.Cfg.ClientPIDBase = 1000
 		x := v.x
@@ -307,7 +307,7 @@ func c25Aged() []*hist.Case {
 			{Kind: "connect", Client: 0, Version: 5, Clean: false, Expiry: &exp, RecvMax: &one},
 			{Kind: "subscribe", Client: 0, Filters: []refmqtt.Filter{{Filter: "d/#", QoS: 1}}},
 			{Kind: "publish", Client: 1, Topic: "d/a", QoS: 1},
-			{Kind: "sleep", Offset: 4000},
+			{Kind: "sleep", Offset: 6000},
 			{Kind: "subscribe", Client: 0, Filters: []refmqtt.Filter{{Filter: "h/#", QoS: 1}}},
 			{Kind: "tick", Tick: "inflight", Offset: v.off},
 			{Kind: "ack", Client: 0, Index: 0},
@@ -319,7 +319,7 @@ func c25Aged() []*hist.Case {
 }
 
 func TestC25(t *testing.T) {
-	r := evid.New("C25", "rapid: server maximum message expiry 0/5/60/default, publisher (v5 with Message Expiry Interval absent/3/30/300, or v3.1.1) and subscriber (v5 / v3.1.1), up to three routes per case in generated order, each with 0-3 housekeeping ticks at virtual times on both sides of every boundary (boundary-5, +5, near, far) between publication and the copy's opportunity to be sent: retained store -> later subscriber; held back by Receive Maximum 1 -> released by the client's acknowledgement; queued for an offline persistent session -> reconnect; plus three fixed 'aged' histories per run in which 4 s of real time pass between a retained publish and its (held-back) replay. Oracle: a tick of the route's housekeeping later than publish time + effective interval (smaller non-zero of publisher interval and server maximum; 3 s margin, inside not asserted) => the unsent copy is never delivered; no such tick => it is delivered at its opportunity (all three routes); every v5 delivery carries a Message Expiry Interval <= the effective interval, and carries one whenever the publisher set one. Non-trivial = a tick past expiry ran while an unsent copy existed; distinct by (history, route)")
+	r := evid.New("C25", "rapid: server maximum message expiry 0/5/60/default, publisher (v5 with Message Expiry Interval absent/3/30/300, or v3.1.1) and subscriber (v5 / v3.1.1), up to three routes per case in generated order, each with 0-3 housekeeping ticks at virtual times on both sides of every boundary (boundary-5, +5, near, far) between publication and the copy's opportunity to be sent: retained store -> later subscriber; held back by Receive Maximum 1 -> released by the client's acknowledgement; queued for an offline persistent session -> reconnect; plus three fixed 'aged' histories per run in which 6 s of real time pass between a retained publish and its (held-back) replay. Oracle: a tick of the route's housekeeping later than publish time + effective interval (smaller non-zero of publisher interval and server maximum; 3 s margin, inside not asserted) => the unsent copy is never delivered; no such tick => it is delivered at its opportunity (all three routes); every v5 delivery carries a Message Expiry Interval <= the effective interval, and carries one whenever the publisher set one. Non-trivial = a tick past expiry ran while an unsent copy existed; distinct by (history, route)")
 	defer r.Finish(t)
 	if evid.ReplayMode() {
 		evid.Replay(t, r, replayPath(), c25Check)
